@@ -37,7 +37,8 @@ SHARD_TIMEOUT = {"quick": 300, "thorough": 1500}
 
 def all_cases(tier: str, seed: int):  # noqa: ANN201
     yield from native_twins.cases()
-    yield from treecheck.cases("c05", tier, seed, 4000, 60000, extra=lambda: itertools.chain(treefam.scope_histories(), treefam.nested_handover()))
+    yield from treecheck.cases("c05", tier, seed, 4000, 60000, extra=lambda: itertools.chain(treefam.scope_histories(), treefam.nested_handover(),
+                                                             treefam.held_request_handover()))
 
 
 def shards(tier: str, seed: int) -> list[dict]:
@@ -45,14 +46,14 @@ def shards(tier: str, seed: int) -> list[dict]:
 
 
 def judge(case: dict, col) -> None:  # noqa: ANN001
-    if case.get("t") in ("twin", "native_through"):
+    if case.get("t") in ("twin", "native_through", "native_child_cancels"):
         res = native_twins.execute(case)
         col.case(res["sig"], True, sample={"case": case, "outcomes": res["log_tail"]})
         for k, v in res["windows"].items():
             col.count("window:" + k, v)
 
-        for _p, clause, detail in res["viol"]:
-            col.violation(clause, detail, case)
+        for _p, clause, detail, *mech in res["viol"]:
+            col.violation(clause, detail, case, mech[0] if mech else None)
     else:
         guarded(col, case, treecheck.judge, PROPERTY, case, col)
 
